@@ -151,12 +151,12 @@ def run(ctx):
     hw = {"header_ws": True}
     dense = {"prefix_dense": True, "opts": {"header_ws": False, "max_decls": 10, "max_types": 3}}
     dense_ws = {"prefix_dense": True, "header_ws": True, "opts": {"header_ws": False, "max_decls": 10, "max_types": 3}}
-    plan = [("names", dense, ctx.pick(260, 10000)), ("names", dense_ws, ctx.pick(160, 6000)), ("names", hw, ctx.pick(160, 5000)),
-            ("core", hw, ctx.pick(60, 1500)), ("core", None, ctx.pick(60, 1500))]
+    plan = [("names", dense, ctx.pick(200, 10000)), ("names", dense_ws, ctx.pick(120, 6000)), ("names", hw, ctx.pick(120, 5000)),
+            ("core", hw, ctx.pick(40, 1500)), ("core", None, ctx.pick(40, 1500))]
     import isogen
     if hasattr(isogen.Generator, "make_pointer"):      # generator option added later by the runtime engine: client pointer declarations
         ptr = {"prefix_dense": True, "opts": {"header_ws": False, "max_decls": 8, "max_types": 3, "pointers": True, "force_ids": True}}
-        plan.append(("names", ptr, ctx.pick(80, 3000)))
+        plan.append(("names", ptr, ctx.pick(60, 3000)))
     results = ts_types.run_cases(ctx, cli, plan, "c24", [("props.c24", "analyze")], with_checked_in=True, probe=False)
     key = "props.c24.analyze"
     violations, stats, samples, fps = [], collections.Counter(), [], set()
